@@ -115,12 +115,16 @@ def py_traces(ctx, coders):
     for coder in coders:
         trace = ctx.pydrive(coder, n)
         if trace:
+            if coder == "symbol":
+                jobs.append(dict(module="TracePySymbol", trace=trace, what="Python front end: symbol codes (Huffman on bit stack / queue)", timeout=1500))
+                continue
             jobs.append(dict(module={"ans": "TracePyAns", "range": "TracePyRange", "chain": "TracePyChain"}[coder], trace=trace,
                              constants={"W": 32, "S": 64, "LB": 12}, invariants=["StateInv"], what="Python front end: %s coder" % coder, timeout=1500))
     ctx.validate_traces(jobs)
     for coder in coders:
         for c in {"ans": ("py_enc_family_fast", "py_dec_iid_array", "py_from_binary", "py_seek", "py_model_fast_lazy", "py_model_leaky"),
                   "range": ("py_enc_steered", "py_dec_family_leaky", "py_seek", "py_dec_invalid_data", "py_exhausted_after_message"),
+                  "symbol": ("py_stack_export_at_word_boundary", "py_stack_reimport", "py_book_f32", "py_queue_dec_out_of_data", "py_stack_enc_refused"),
                   "chain": ("py_restored_same", "py_restored_suffix", "py_restored_concat", "py_dec_out_of_data_single", "py_ctor_compressed", "py_dec_family_fast")}.get(coder, ()):
             ctx.require(c)
     if "range" in coders:
@@ -323,6 +327,7 @@ def c18_ans(ctx):
 
 @prop("C08")
 def c08(ctx):
+    py_traces(ctx, ["symbol", "range"])       # exports through the Python API go through the guards (seal, show, unseal)
     range_steered(ctx, exact=False)
     c08_ans(ctx)
     range_hists(ctx, ["TypeInv", "StateInv"], "c08")
@@ -596,6 +601,7 @@ def bits_traces(ctx):
 
 @prop("C16")
 def c16(ctx):
+    py_traces(ctx, ["symbol"])
     bits_traces(ctx)
     bit_coders(ctx, "c16")
     symbol_cases(ctx, "expgolomb", 8, 255, "c16")
@@ -606,6 +612,7 @@ def c16(ctx):
 
 @prop("C15")
 def c15(ctx):
+    py_traces(ctx, ["symbol"])
     if ctx.tier == "thorough":
         symbol_cases(ctx, "huffman", 6, 4, "c15")
     else:
